@@ -210,7 +210,9 @@ def _reassembly(ctx, S, nrounds):
     sysgen = itertools.count(rng.randint(1, 1 << 30))
     completed = []        # system bytes of messages this endpoint has already reassembled (a later transaction may reuse them)
     for rnd in range(nrounds):
-        k = rng.choice([1, 2, 3, 4])
+        k = rng.choice([1, 2, 3, 4]) if rnd % 6 else rng.choice([33, 40, 70])     # now and then many transactions open at once
+        if k > 4:
+            ctx.count("reassembly.rounds_with_more_than_32_open_messages")
         msgs = []
         for _ in range(k):
             s, f = rng.choice(header_only)
@@ -221,7 +223,7 @@ def _reassembly(ctx, S, nrounds):
                     system = cand
                     ctx.count("reassembly.system_bytes_reused_after_completion")
             h = dict(device_id=rng.randint(0, 0x7FFF), rbit=False, stream=s, wbit=rng.random() < 0.5, function=f, system=system)
-            blen = rng.choice([0, 1, 243, 244, 245, 487, 488, 489, 244 * 3, 244 * 3 + 1, rng.randint(0, 1500)])
+            blen = rng.choice([0, 1, 243, 244, 245, 487, 488, 489, 244 * 3, 244 * 3 + 1, rng.randint(0, 1500)]) if k <= 4 else rng.choice([245, 300, 489])
             body = rng.randbytes(blen)
             blocks = [wire.secs1_block(wire.secs1_header(**rf), d) for rf, d in
                       wire.secs1_split(h["device_id"], h["rbit"], h["stream"], h["wbit"], h["function"], h["system"], body)]
@@ -230,6 +232,11 @@ def _reassembly(ctx, S, nrounds):
         order = []
         idxs = [0] * k
         remaining = [len(m[2]) for m in msgs]
+        if k > 4:
+            # first block of every message before any second block: all of them are incomplete at the same moment
+            order = [(j, 0) for j in range(k)]
+            idxs = [1] * k
+            remaining = [len(m[2]) - 1 for m in msgs]
         while any(remaining):
             j = rng.choice([i for i in range(k) if remaining[i]])
             order.append((j, idxs[j]))
